@@ -5,6 +5,8 @@ import harness.c02 as H2
 
 PID = "C17"
 ASSUMPTIONS = [
+    "twinfiles: the same source text loaded from a library file and from a user file (real code objects made with code.replace(co_filename=...): equal by "
+    "value, as CPython's code comparison ignores co_filename); the shipped default_code_filter is called with its own memoisation, starting from empty memo tables",
     "custom filter: its verdict is a symbolic bool; rejected code must leave the tracer state and the log untouched, accepted code behaves as "
     "the C02 transition (the C02 step harness with the filter verdict decoded from the tape is re-run here)",
     "__main__ exclusion: func.__module__ is a symbolic str (length <= 9) flowing through the real CallTraceStoreLogger.log/flush",
@@ -12,7 +14,7 @@ ASSUMPTIONS = [
     "extends a root ('<root>-extra'), directories outside, 0..2 components, synthetic names ('', '<string>', '<frozen ...>', '<stdin>'); "
     "MONKEYTYPE_TRACE_MODULES unset / empty / 1..2 (quick) or ..3 (thorough) names; oracle = independent string-based path predicate",
     "a real symbolic link to the first library root is created under the system temp directory: code reached through it must be treated as "
-    "library code (Path.resolve runs for real); other symlink layouts are outside the claim; so are lru_cache staleness when the environment variable changes, enumeration of every installed code object, `monkeytype run` of scripts",
+    "library code (Path.resolve runs for real); other symlink layouts are outside the claim; so are memo staleness when the environment variable changes within a process, enumeration of every installed code object, `monkeytype run` of scripts",
 ]
 
 
@@ -27,6 +29,9 @@ def run(tier):
             rule="string classes decided by the solver (equal to '__main__' or not)", describe=H.describe),
         Job("harness.c17", dn, H.deffilter_shards(dn), 300 if tier == "quick" else 600, bounds=dict(H.CFG[dn.split('_')[1]]),
             rule="one path = one composed file name x allow-list", describe=H.describe),
+        Job("harness.c17", "twinfiles", H.twinfiles_shards(), 120, bounds=dict(files="one under a library root and one outside (each of the roots of the default-filter alphabet), same stem", source="identical: the two code "
+                                                                                       "objects compare equal", calls="both orders, optionally the first file again", allow_list=["unset", "nomatch", "<the stem>"]),
+            rule="one path = (library root, other root, stem, call order, third call, allow-list); the shipped filter WITH its memoisation, from a fresh copy of monkeytype.config", describe=H.describe),
         Job("harness.c02", sn, H2.step_shards(sn), 240 if tier == "quick" else 600, bounds=dict(see="C02 step harness; filter verdict decoded from the tape"),
             rule="C02 transition with the custom filter verdict symbolic", describe=H2.describe),
     ]
